@@ -1,6 +1,6 @@
 (* Proofs/C05_proofs.v — the scope invariant over all operations, and the C05 theorems. *)
 From Coq Require Import Lia ZArith List Bool.
-From Verif Require Import Lib.Base Lib.PyStr Model.Session Proofs.Session_proofs Proofs.C05a_proofs Proofs.C05v_proofs.
+From Verif Require Import Lib.Base Lib.PyStr Model.Session Proofs.Session_proofs Proofs.Session_gone Proofs.C05a_proofs Proofs.C05v_proofs.
 Import ListNotations.
 Open Scope Z_scope.
 
@@ -20,6 +20,18 @@ Proof.
   intros H Hg. rewrite Forall_forall in *. intros t Ht. destruct (H _ Ht) as (g&G1&G2&G3).
   destruct (Hg _ _ G1) as (g'&G1'&E). exists g'. rewrite E. auto.
 Qed.
+
+(* setting `revoked` / `gone` (a revocation cascade, the sweep of remove_inactive_token) touches no scope *)
+Lemma good_same gs ts ts' : toks_same ts ts' -> Forall (scope_good gs) ts -> Forall (scope_good gs) ts'.
+Proof.
+  apply toks_same_Forall. intros t t' (S1&S2&S3&_&_&_&S7&_) (g&G1&G2&G3). exists g. rewrite S1, S2, S3, S7. auto.
+Qed.
+Lemma good_sweep_p c p s : toks_good s -> toks_good (sweep_p c p s).
+Proof. intros H. unfold toks_good. rewrite grants_sweep_p. eapply good_same; [apply sweep_p_same|exact H]. Qed.
+Lemma good_cascade c gi v s : toks_good s -> toks_good (cascade c gi v s).
+Proof. intros H. unfold toks_good. rewrite grants_cascade. eapply good_same; [apply cascade_same|exact H]. Qed.
+Lemma good_walk_derived gi v s : toks_good s -> toks_good (walk_derived gi v s).
+Proof. intros H. unfold toks_good. cbn [grants walk_derived]. eapply good_same; [apply walk_derived_same|exact H]. Qed.
 
 Lemma parsed_good_mono s s' : parsed_good s -> ext s s' -> gext s s' -> parsed s' = parsed s -> parsed_good s'.
 Proof.
@@ -155,13 +167,13 @@ Proof.
   - (* Authorize *) now apply inv_authorize_at.
   - (* TokenParse *)
     assert (Hl : length (grants (fst (do_token_parse c s client code redirect))) = length (grants s))
-      by (unfold do_token_parse; repeat dm; reflexivity).
+      by (unfold do_token_parse; repeat dm; cbn [fst push_parsed grants]; rewrite ?grants_cascade; reflexivity).
     split; [|split]; [| |eapply grants_good_gext; eauto].
     + unfold do_token_parse. repeat dm; cbn [fst]; try exact Ht.
-      unfold push_parsed, toks_good; cbn. apply (good_map_revoke _ s Ht).
+      apply (good_cascade c (t_grant t) id s) in Ht. exact Ht.
     + unfold do_token_parse in *. repeat dm; cbn [fst] in *; try exact Hp;
         try (apply parsed_good_push; [|intros; discriminate]); try exact Hp.
-      eapply parsed_good_mono; [exact Hp|apply ext_revoke_derived|now apply gext_same|reflexivity].
+      eapply parsed_good_mono; [exact Hp|apply ext_cascade|apply gext_same; apply grants_cascade|apply parsed_cascade].
   - (* RefreshParse *)
     assert (Hl : length (grants (fst (do_refresh_parse c s client tok scope))) = length (grants s))
       by (unfold do_refresh_parse; repeat dm; reflexivity).
@@ -170,6 +182,7 @@ Proof.
     + unfold do_refresh_parse. destruct (resolve_as c Refresh tok s) as [id g t| | | |] eqn:Er; cbn [fst];
         try exact Hp; try (apply parsed_good_push; [exact Hp|intros; discriminate]).
       apply resolve_as_tok in Er as (->&Hf). pose proof (find_tok_tget _ _ _ _ Hf) as (Htg&Hgr).
+      destruct (t_gone t); cbn [fst]; [apply parsed_good_push; [exact Hp|intros; discriminate]|].
       destruct (negb (tok_active (now s) t)); cbn [fst]; [apply parsed_good_push; [exact Hp|intros; discriminate]|].
       destruct scope as [rs|]; [|cbn [fst]; apply parsed_good_push; [exact Hp|intros; discriminate]].
       destruct (subset rs (fscope s (t_grant t) g (t_based t))) eqn:Es; cbn [fst]; [|apply parsed_good_push; [exact Hp|intros; discriminate]].
@@ -204,15 +217,22 @@ Proof.
     unfold do_revoke_ep in *. repeat dm; cbn [fst] in *; try (repeat split; assumption);
       (split; [|split]; [now apply good_upd_revoke|eapply parsed_good_mono; eauto|exact Hg]).
   - (* ApiRevoke *)
-    unfold do_api_revoke in *. repeat dm; cbn [fst] in *; try (repeat split; assumption).
-    + split; [|split]; [|eapply parsed_good_mono; eauto|exact Hg].
-      unfold revoke_derived. apply good_map_revoke. now apply good_upd_revoke.
-    + split; [|split]; [now apply good_upd_revoke|eapply parsed_good_mono; eauto|exact Hg].
+    assert (Hpa : parsed (fst (do_api_revoke_c c s tok recursive)) = parsed s).
+    { unfold do_api_revoke_c, do_api_revoke. repeat dm; cbn [fst]; unfold sweep; rewrite ?parsed_sweep_p; reflexivity. }
+    assert (Hgr : grants (fst (do_api_revoke_c c s tok recursive)) = grants s).
+    { unfold do_api_revoke_c, do_api_revoke. repeat dm; cbn [fst]; rewrite ?grants_sweep; reflexivity. }
+    split; [|split]; [|eapply parsed_good_mono; eauto|intros gi0 g0 H0; rewrite Hgr in H0; eapply Hg; eauto].
+    unfold do_api_revoke_c, do_api_revoke. repeat dm; cbn [fst]; try exact Ht.
+    all: first [ apply good_sweep_p; apply good_walk_derived; now apply good_upd_revoke
+               | unfold revoke_derived; apply good_map_revoke; now apply good_upd_revoke
+               | now apply good_upd_revoke ].
   - (* RevokeGrant *)
     destruct (nth_error (grants s) gi) as [g0|] eqn:E; cbn [fst] in *; [|repeat split; assumption].
     destruct (g_removed g0); cbn [fst] in *; [repeat split; assumption|].
-    assert (Hl : length (grants (revoke_grant_at gi s)) = length (grants s)) by (unfold revoke_grant_at; cbn; apply len_upd).
-    split; [|split]; [|eapply parsed_good_mono; eauto|eapply grants_good_gext; eauto].
+    assert (Hl : length (grants (sweep c gi (revoke_grant_at gi s))) = length (grants s))
+      by (rewrite grants_sweep; unfold revoke_grant_at; cbn; apply len_upd).
+    split; [|split]; [|eapply parsed_good_mono; eauto; unfold sweep; now rewrite parsed_sweep_p|eapply grants_good_gext; eauto].
+    apply good_sweep_p.
     unfold revoke_grant_at. apply (good_map_revoke (fun t => Nat.eqb (t_grant t) gi)).
     unfold toks_good, upd_grant; cbn. eapply toks_good_grants; [exact Ht|].
     intros k g H0. destruct (Nat.eq_dec gi k) as [->|N].
@@ -221,8 +241,10 @@ Proof.
   - (* RevokeClient *)
     destruct (nth_error (grants s) gi) as [g0|] eqn:E; cbn [fst] in *; [|repeat split; assumption].
     destruct (existsb (live_branch g0) (grants s)); cbn [fst] in *; [|repeat split; assumption].
-    assert (Hl : length (grants (revoke_branch g0 s)) = length (grants s)) by (unfold revoke_branch; cbn; apply map_length).
-    split; [|split]; [|eapply parsed_good_mono; eauto|eapply grants_good_gext; eauto].
+    assert (Hl : length (grants (sweep_p c (in_branch g0 s) (revoke_branch g0 s))) = length (grants s))
+      by (rewrite grants_sweep_p; unfold revoke_branch; cbn; apply map_length).
+    split; [|split]; [|eapply parsed_good_mono; eauto; now rewrite parsed_sweep_p|eapply grants_good_gext; eauto].
+    apply good_sweep_p.
     unfold revoke_branch, toks_good; cbn.
     assert (Hgs : Forall (scope_good (List.map (fun h => if live_branch g0 h then revoke_g h else h) (grants s))) (toks s)).
     { eapply toks_good_grants; [exact Ht|]. intros k g H0. rewrite nth_error_map, H0. cbn. destruct (live_branch g0 g); eauto. }
@@ -239,8 +261,10 @@ Proof.
   - (* RevokeUser *)
     destruct (nth_error (grants s) gi) as [g0|] eqn:E; cbn [fst] in *; [|repeat split; assumption].
     destruct (existsb (live_user g0) (grants s)); cbn [fst] in *; [|repeat split; assumption].
-    assert (Hl : length (grants (revoke_user g0 s)) = length (grants s)) by (unfold revoke_user; cbn; apply map_length).
-    split; [|split]; [|eapply parsed_good_mono; eauto|eapply grants_good_gext; eauto].
+    assert (Hl : length (grants (sweep_p c (in_user g0 s) (revoke_user g0 s))) = length (grants s))
+      by (rewrite grants_sweep_p; unfold revoke_user; cbn; apply map_length).
+    split; [|split]; [|eapply parsed_good_mono; eauto; now rewrite parsed_sweep_p|eapply grants_good_gext; eauto].
+    apply good_sweep_p.
     unfold revoke_user, toks_good; cbn.
     assert (Hgs : Forall (scope_good (List.map (fun h => if live_user g0 h then revoke_g h else h) (grants s))) (toks s)).
     { eapply toks_good_grants; [exact Ht|]. intros k g H0. rewrite nth_error_map, H0. cbn. destruct (live_user g0 g); eauto. }
